@@ -102,6 +102,7 @@ type Sym struct {
 	RCur, ROth bool // reset condition of the current level / of the other levels holds
 	V          int  // value (threshold family)
 	Gap        bool // 3s since the previous point instead of 1s
+	CMiss      bool // the point lacks the field the critical condition reads: that condition cannot be evaluated
 }
 
 func (c Config) alphabet() []Sym {
@@ -134,6 +135,17 @@ func (c Config) alphabet() []Sym {
 						syms = append(syms, Sym{I: i, W: w, C: cr, RCur: true, ROth: true})
 					}
 				}
+			}
+		}
+	}
+	if !c.Thresholds && !c.Resets && c.Crit && (c.Warn || c.Info) {
+		// points on which the highest severity cannot be evaluated while a lower one holds (or not)
+		for _, i := range []bool{false, true} {
+			for _, w := range []bool{false, true} {
+				if (i && !c.Info) || (w && !c.Warn) {
+					continue
+				}
+				syms = append(syms, Sym{I: i, W: w, CMiss: true, RCur: true, ROth: true})
 			}
 		}
 	}
@@ -185,6 +197,10 @@ func (c Config) concretize(s Sym, cur alert.Level) concrete {
 	}
 	r.fields = map[string]any{"i": b(s.I), "w": b(s.W), "c": b(s.C),
 		"ri": b(r.reset[alert.Info]), "rw": b(r.reset[alert.Warning]), "rc": b(r.reset[alert.Critical])}
+	if s.CMiss {
+		delete(r.fields, "c")
+		r.cond[alert.Critical] = false
+	}
 	return r
 }
 
@@ -528,6 +544,9 @@ func runChunk(t *testing.T, cfg Config, cases []Case, r *rep.R) ([]*gstate, erro
 			}
 		}
 		for _, e := range env.Diag.ErrorsCopy() {
+			if strings.Contains(e.Msg, "error evaluating expression for level") && strings.Contains(e.Err, `"c" is missing`) {
+				continue // the documented reaction to a point on which a level condition cannot be evaluated
+			}
 			runErr = fmt.Errorf("diagnostic error: %+v", e)
 		}
 	})
